@@ -41,15 +41,24 @@ def gen_wire_ws(rng: random.Random, directed: float = 0.3, **kw) -> dict:
         sites = [it[1] for r in ws["roots"] for d in r["defs"] for s in d["secs"] for it in s["items"]
                  if it[0] == "f" and it[1][0] in ("var", "arr") and it[1][1][0] in ("bool", "u", "i", "byte")]
         if sites:
+            import copy
+            from ..model import rules
+            from ..model.namespace import Universe
+            backup = copy.deepcopy(ws)
             rng.choice(sites)[2] = rng.choice([255, 256, 257, 300])
             _refit_extents(ws)
+            if rules.workspace_problems(Universe(ws)):
+                return backup  # e.g. the enlarged definition has a sibling version whose extent must stay equal
     return ws
 
 
 def _refit_extents(ws: dict) -> None:
     """After a capacity was enlarged: delimited sections keep at least their longest representation (in dependency order)."""
     alld = [d for r in ws["roots"] for d in r["defs"]]
-    for d in alld:
+    order = {k: i for i, k in enumerate(ws.get("order", []))}
+    # creation order = dependency order (a definition only refers to definitions created before it); definitions added later
+    # by the checks (directed skeletons) come last
+    for d in sorted(alld, key=lambda x: order.get(T.def_key(x), len(order))):
         for si, s in enumerate(d["secs"]):
             if isinstance(s.get("seal"), int) and not isinstance(s.get("seal"), bool):
                 old = s["seal"]
